@@ -255,6 +255,28 @@ class W09:
     def tkey(cfg, i, d, kind="tree"):
         return f"{i}:{d}:{kind}" if not cfg else f"cfg{cfg}:{i}:{d}:{kind}"
 
+    def do_scan_prebuilt(self, sid, i, d):
+        """scan_node on a node that already has children (a caller that split
+        the buffer itself): the children are scanned, one level deeper."""
+        from multidecoder.node import Node
+
+        sc = self.scanners[sid]
+        data = self.corpus[i]
+        h = len(data) // 2
+        root = Node("", data, "", 0, len(data), children=[Node("part", data[:h], "", 0, h), Node("part", data[h:], "", h, len(data))])
+        self.counters["scans"] += 1
+        try:
+            with watchdog(OP_LIMIT):
+                t = sc.scan_node(root, d)
+        except HangDetected:
+            raise Harness("stall: scan_node on a pre-built node")
+        except kernel.StepLimitExceeded as e:
+            self.aborted = True
+            t = e
+        except Exception as e:  # noqa: BLE001
+            t = e
+        self.record(self.tkey(self.scanner_cfg.get(sid, 0), i, d, "pre"), t)
+
     def do_scan(self, sid, i, d, via_node=False, fresh=False):
         sc = self.scanners[sid]
         data = self.corpus[i]
@@ -510,6 +532,8 @@ class W09:
                     self.do_scan(op[1], op[2], op[3])
                 elif k == "scan_node":
                     self.do_scan(op[1], op[2], op[3], via_node=True)
+                elif k == "scan_pre":
+                    self.do_scan_prebuilt(op[1], op[2], op[3])
                 elif k == "new_other":
                     # a registry for some other configuration is built (and used once): pure history
                     from multidecoder.multidecoder import Multidecoder
